@@ -20,6 +20,8 @@ pub struct Case {
     pub jumps: Vec<Vec<(u32, i64, i64)>>,
     /// per thread: (call_no, kilobytes of extra caller stack depth)
     pub depths: Vec<Vec<(u32, u32)>>,
+    /// per thread: number of CPUs the OS thread is restricted to (0 = unrestricted)
+    pub cpus: Vec<u32>,
 }
 
 impl Case {
@@ -39,6 +41,7 @@ impl Case {
             "start": self.start,
             "switches": sim::switches_to_json(&self.switches),
             "clock_jumps": self.jumps.iter().map(|t| t.iter().map(|(k, a, b)| json!([k, a, b])).collect::<Vec<_>>()).collect::<Vec<_>>(),
+            "cpu_limits": self.cpus,
             "stack_depths_kb": self.depths.iter().map(|t| t.iter().map(|(k, a)| json!([k, a])).collect::<Vec<_>>()).collect::<Vec<_>>(),
         })
     }
@@ -90,7 +93,9 @@ impl Case {
             }
         }
         depths.resize(threads.len(), Vec::new());
-        Some(Case { threads, churn, start, switches, jumps, depths })
+        let mut cpus: Vec<u32> = v.get("cpu_limits").and_then(|c| c.as_array()).map(|a| a.iter().map(|x| x.as_u64().unwrap_or(0) as u32).collect()).unwrap_or_default();
+        cpus.resize(threads.len(), 0);
+        Some(Case { threads, churn, start, switches, jumps, depths, cpus })
     }
     pub fn from_spec(pool: &Pool, spec: &RunSpec, start: u32, switches: Vec<Sw>) -> Case {
         Case {
@@ -104,6 +109,7 @@ impl Case {
             switches,
             jumps: spec.clock_jumps.clone(),
             depths: spec.stack_depths.clone(),
+            cpus: spec.cpu_limits.clone(),
         }
     }
 }
@@ -208,6 +214,11 @@ pub fn materialise(case: &Case, oc: &mut OracleCache) -> Option<(Pool, RunSpec)>
             let mut d = case.depths.clone();
             d.resize(case.threads.len(), Vec::new());
             d
+        },
+        cpu_limits: {
+            let mut c = case.cpus.clone();
+            c.resize(case.threads.len(), 0);
+            c
         },
     };
     Some((pool, spec))
